@@ -343,6 +343,15 @@ impl Prop for C19 {
         }
     }
 
+    fn worker_args(&self) -> Vec<String> {
+        let ff = match self.fault_free {
+            Some(true) => "only",
+            Some(false) => "never",
+            None => "mixed",
+        };
+        vec!["--prop".into(), "c19".into(), "--ff".into(), ff.into()]
+    }
+
     fn size(&self, case: &Case) -> usize {
         let ops: usize = case.threads.iter().map(|t| t.len()).sum();
         ops * 4
